@@ -1068,4 +1068,97 @@ theorem fpDe_reads {c : FpCfg} (h : WFc c) (cm : Compress) (vd : Validate) :
   unfold fpDe
   exact Reads.bind0 (fpDeFlags_reads h EmptyFlags) (fun ⟨r, _⟩ => Reads.pure r)
 
+/-! ## Extension towers -/
+
+theorem Res_bind_ok_inv {α β : Type} {m : Res α} {k : α → Res β} {b : β} (h : (m >>= k) = .ok b) :
+    ∃ a, m = .ok a ∧ k a = .ok b := by
+  cases m with
+  | ok a => exact ⟨a, rfl, h⟩
+  | err e => cases h
+  | panic => cases h
+
+theorem Res_bind_ok {α β : Type} (a : α) (k : α → Res β) : ((Res.ok a : Res α) >>= k) = k a := rfl
+theorem Res_pure {α : Type} (a : α) : (pure a : Res α) = .ok a := rfl
+
+/-- the value is an element of the tower `t` (Rust: guaranteed by the type) -/
+def ExtV.hasShape {p : Nat} : ExtV p → Tower → Prop
+  | .base _, .base => True
+  | .quad a b, .quad t => a.hasShape t ∧ b.hasShape t
+  | .cubic a b d, .cubic t => a.hasShape t ∧ b.hasShape t ∧ d.hasShape t
+  | _, _ => False
+
+/-- the tower a value belongs to, read off its first coordinates -/
+def ExtV.shape {p : Nat} : ExtV p → Tower
+  | .base _ => .base
+  | .quad a _ => .quad a.shape
+  | .cubic a _ _ => .cubic a.shape
+
+/-- every prime-field coefficient is reduced -/
+def ExtV.reduced {p : Nat} : ExtV p → Prop
+  | .base x => x.val < p
+  | .quad a b => a.reduced ∧ b.reduced
+  | .cubic a b d => a.reduced ∧ b.reduced ∧ d.reduced
+
+theorem ExtV.shape_of_hasShape {p : Nat} {v : ExtV p} {t : Tower} (h : v.hasShape t) : v.shape = t := by
+  induction t generalizing v with
+  | base => cases v <;> simp [ExtV.hasShape] at h; rfl
+  | quad t ih => cases v <;> simp [ExtV.hasShape] at h; simp [ExtV.shape, ih h.1]
+  | cubic t ih => cases v <;> simp [ExtV.hasShape] at h; simp [ExtV.shape, ih h.1]
+
+theorem extSer_size {c : FpCfg} (h : WFc c) (t : Tower) : ∀ (Fl : Type) [Flags Fl] (v : ExtV c.p) (fl : Fl)
+    (bs : List Nat), v.hasShape t → extSerFlags c Fl v fl = .ok bs → bs.length = extSizeFlags c Fl t := by
+  induction t with
+  | base =>
+    intro Fl _ v fl bs hv hs
+    cases v <;> simp only [ExtV.hasShape] at hv
+    simp only [extSerFlags] at hs
+    exact fpSer_size h hs
+  | quad t ih =>
+    intro Fl _ v fl bs hv hs
+    cases v <;> simp only [ExtV.hasShape] at hv
+    simp only [extSerFlags] at hs
+    obtain ⟨a, ha, hs⟩ := Res_bind_ok_inv hs
+    obtain ⟨b, hb, hs⟩ := Res_bind_ok_inv hs
+    cases hs
+    simp only [List.length_append, extSizeFlags, ih _ _ _ _ hv.1 ha, ih _ _ _ _ hv.2 hb]
+  | cubic t ih =>
+    intro Fl _ v fl bs hv hs
+    cases v <;> simp only [ExtV.hasShape] at hv
+    simp only [extSerFlags] at hs
+    obtain ⟨a, ha, hs⟩ := Res_bind_ok_inv hs
+    obtain ⟨b, hb, hs⟩ := Res_bind_ok_inv hs
+    obtain ⟨d, hd, hs⟩ := Res_bind_ok_inv hs
+    cases hs
+    simp only [List.length_append, extSizeFlags, ih _ _ _ _ hv.1 ha, ih _ _ _ _ hv.2.1 hb,
+      ih _ _ _ _ hv.2.2 hd]
+
+theorem extDe_reads {c : FpCfg} (h : WFc c) (t : Tower) (cm : Compress) (vd : Validate) :
+    Reads (extDe c t cm vd) (extSizeFlags c EmptyFlags t) := by
+  induction t with
+  | base =>
+    simp only [extDe, extSizeFlags]
+    exact Reads.bind0 (fpDe_reads h cm vd) (fun x => Reads.pure _)
+  | quad t ih =>
+    simp only [extDe, extSizeFlags]
+    exact Reads.bind ih (fun c0 => Reads.bind0 ih (fun c1 => Reads.pure _))
+  | cubic t ih =>
+    simp only [extDe, extSizeFlags]
+    refine Reads.congr (Reads.bind ih (fun c0 => Reads.bind ih (fun c1 => Reads.bind0 ih (fun c2 => Reads.pure _)))) ?_
+    omega
+
+theorem extDeFlags_reads {c : FpCfg} (h : WFc c) (Fl : Type) [Flags Fl] (t : Tower) :
+    Reads (extDeFlags c Fl t) (extSizeFlags c Fl t) := by
+  induction t with
+  | base =>
+    simp only [extDeFlags, extSizeFlags]
+    exact Reads.bind0 (fpDeFlags_reads h Fl) (fun ⟨x, fl⟩ => Reads.pure _)
+  | quad t ih =>
+    simp only [extDeFlags, extSizeFlags]
+    exact Reads.bind (extDe_reads h t .yes .yes) (fun c0 => Reads.bind0 ih (fun ⟨c1, fl⟩ => Reads.pure _))
+  | cubic t ih =>
+    simp only [extDeFlags, extSizeFlags]
+    refine Reads.congr (Reads.bind (extDe_reads h t .yes .yes) (fun c0 =>
+      Reads.bind (extDe_reads h t .yes .yes) (fun c1 => Reads.bind0 ih (fun ⟨c2, fl⟩ => Reads.pure _)))) ?_
+    omega
+
 end Ark.Bytes
